@@ -470,3 +470,6 @@ def run(ctx, rep):
     # the characters of a literal are part of what was written: nothing may trim them by content
     from rules.c09 import rule_trim
     rule_trim(ctx, rep, rid="R-C01-trim")
+    # nothing that was written is dropped: a comment ends at its first *) (otherwise the code up to the next comment vanishes)
+    from rules import c08_trivia
+    c08_trivia.run_comment(ctx, rep, rid="R-C01-comment")
